@@ -70,6 +70,17 @@ Fixpoint chunks (n : nat) (sz : Z) (l : list Z) : list (list Z) :=
   | S n' => ztake sz l :: chunks n' sz (zdrop sz l)
   end.
 
+(* the first n elements and the rest, or None when fewer than n remain *)
+Fixpoint split_at {A} (n : nat) (s : list A) : option (list A * list A) :=
+  match n with
+  | O => Some ([], s)
+  | S n' =>
+    match s with
+    | [] => None
+    | b :: r => match split_at n' r with Some (a, t) => Some (b :: a, t) | None => None end
+    end
+  end.
+
 Fixpoint find_first {A} (p : A -> bool) (l : list A) : option A :=
   match l with
   | [] => None
